@@ -80,6 +80,9 @@ def run(res: C.Result):
             first2 = next((i for i, (x, y) in enumerate(zip(a["steps"], r2["a"]["steps"])) if x != y), None)
             res.fail(f"{kind}:not-reproducible-across-interpreters", f"{c['driver']}: the same seed {c['seed']!r} gives another trajectory in an interpreter started with another PYTHONHASHSEED "
                      f"(first diverging step {first2})", {"input": c, "observed": {"first_diverging_step": first2, "hash_seeds": [0, 1 + res.seed % 4000]}})
+        if not r["unseeded"]["same"]:
+            res.fail("unseeded:recorded-seed-does-not-reproduce", f"{c['driver']}: a simulation built without a seed recorded seed {r['unseeded']['recorded_seed']}; a second one built with that seed "
+                     f"diverges at step {r['unseeded']['first_diverging_step']}", {"input": c, "observed": r["unseeded"]})
         if r["plain_int"] is not None and (r["plain_int"]["steps"] != a["steps"] or r["plain_int"]["log"] != a["log"]):
             res.fail("numpy-integer-seed:differs-from-int", f"{c['driver']}: seed {c['seed']!r} and the equal builtin int give different trajectories", {"input": c})
         if r["ntrips"]:
